@@ -179,3 +179,8 @@ func init() {
 func init() {
 	mutant("settings-marker-conditional", "settings-codec-table", "settings.go", "			st.windowSize = value\n			st.hasWindowSize = true", "			if value != st.windowSize {\n				st.windowSize = value\n				st.hasWindowSize = true\n			}")
 }
+
+func init() {
+	mutant("block-position-per-call", "hdr-carryover", "serverConn.go", "b, err = sc.dec.nextField(hf, strm.blockFields == 0, strm.blockFields, b)", "b, err = sc.dec.nextField(hf, fr.Type() != FrameContinuation, strm.blockFields, b)")
+	mutant("block-position-never-reset", "hdr-carryover", "serverConn.go", "	if fr.Type() != FrameContinuation {\n		strm.blockFields = 0\n	}\n", "")
+}
